@@ -255,6 +255,16 @@ def judge(sc, names, r, san):
         out.append(("C02/fatal-but-exit%d" % code, "fatal marker written, exit %d" % code))
     if not fatal_seen and total_err > 0 and code != 2:
         out.append(("C02/errors-but-exit%d" % code, "%d errors reported, exit %d" % (total_err, code)))
+    # (a') the stop at the -maxerrors limit is announced as "too many errors": then that many errors must have been reported
+    if b"too many errors, assembly terminated" in (r.stdout + r.stderr + b"".join(v for k, v in r.files.items() if v and k.endswith(".log"))) \
+            and "-maxerrors" in argv and not lst_stdout:
+        try:
+            lim = int(argv[argv.index("-maxerrors") + 1])
+        except (ValueError, IndexError):
+            lim = None
+        counted = total_err + (sum(d[1] for d in per_file.values()) if werror else 0)
+        if lim and counted < lim:
+            out.append(("C02/maxerrors-stop-without-errors", "stopped for 'too many errors' at -maxerrors %d with %d error(s) reported" % (lim, total_err)))
     # (b)/(c)/(e) code files
     cpath = {n: "/w/%s.p" % n for n in names}
     if "-o" in argv and len(names) == 1:
